@@ -384,7 +384,7 @@ func (s *sidx) processSyncLoop(ctx context.Context, req QueryRequest, resources 
 			metrics.totalCursorsCreated += len(cursors)
 		}
 		resources.heap.pushCursors(cursors)
-		chunks, mergeErr := resources.heap.mergeSync(ctx, req.MaxBatchSize, metrics)
+		chunks, mergeErr := resources.heap.mergeSyncUpTo(ctx, req.MaxBatchSize, metrics, batch.bound)
 		if mergeErr != nil {
 			return mergeErr
 		}
@@ -403,8 +403,8 @@ func (s *sidx) processSyncLoop(ctx context.Context, req QueryRequest, resources 
 	if scanErr := resources.scanner.scanSync(ctx, consume); scanErr != nil && !errors.Is(scanErr, errSyncBudgetReached) {
 		return nil, scanErr
 	}
-	// When the budget was reached the last consume already drained the heap; only the
-	// completed-scan path needs a final flush of any cursors left in the heap.
+	// When the budget was reached the collected chunks already are the ordered top-N; only the
+	// completed-scan path needs a final flush of the cursors left in the heap.
 	if !budgetReached {
 		chunks, mergeErr := resources.heap.mergeSync(ctx, req.MaxBatchSize, metrics)
 		if mergeErr != nil {
@@ -498,7 +498,7 @@ func (s *sidx) handleStreamingBatch(
 		metrics.inputBatchesProcessed++
 	}
 
-	return resources.heap.merge(ctx, req.MaxBatchSize, resultsCh, metrics)
+	return resources.heap.mergeUpTo(ctx, req.MaxBatchSize, resultsCh, metrics, batch.bound)
 }
 
 func (s *sidx) addBatchMetricsToSpan(span *query.Span, metrics *batchMetrics) {
